@@ -32,9 +32,13 @@ KW_CLASSES = ["EOF", "ComplexEOF", "HilbertEOF", "ExtendedEOF", "OPA", "POP", "S
 SEED_CLASSES = ["Decomposer", "SVD", "EOF", "ComplexEOF", "EOFRotator", "POP", "OPA", "ExtendedEOF", "SparsePCA", "CPCCA", "MCA", "CCA"]  # (bootstrap reproducibility "to solver accuracy" is C20)
 
 
+# strata of the runner: scenario, and for the class-specific scenarios the class (the three class-free scenarios weigh 4 each)
+CLASSES = [q for q in ("threshold", "solvers", "sign") for _ in range(4)] + [f"kwargs/{c}" for c in KW_CLASSES] + [f"seed/{c}" for c in SEED_CLASSES]
+
+
 @st.composite
-def strategy(draw):
-    part = draw(st.sampled_from(PARTS))
+def strategy(draw, cls=None):
+    part = draw(st.sampled_from(PARTS)) if cls is None else cls.split("/")[0]
     big = draw(st.integers(0, 29)) == 0
     p = draw(st.integers(2, 12))
     n = 520 if big else p + draw(st.integers(1, 14))
@@ -50,9 +54,11 @@ def strategy(draw):
         "scale_exp": draw(st.sampled_from([0, 0, -6, 5])),
     }
     if part == "kwargs":
-        d["cls"] = draw(st.sampled_from(KW_CLASSES))
+        d["cls"] = draw(st.sampled_from(KW_CLASSES)) if cls is None else cls.split("/")[1]
     if part == "seed":
-        d["cls"] = draw(st.sampled_from(SEED_CLASSES))
+        d["cls"] = draw(st.sampled_from(SEED_CLASSES)) if cls is None else cls.split("/")[1]
+    d["sparse"] = draw(st.booleans())  # 'solvers' scenario: also compare the exact and randomised sparse solvers
+    d["pca_pre"] = draw(st.sampled_from([None, "few", "all"]))  # ExtendedEOF: PCA pre-reduction before the embedding (2 PCs / all PCs)
     return d
 
 
@@ -213,6 +219,22 @@ def run_solvers(desc, ctx):
         want_full = max(n, p) < 500 and k > int(0.8 * rank)
         ctx.check(same_full == want_full, "auto_policy", f"auto picked {'full' if same_full else 'randomized'} for n={n},p={p},k={k}", **disc)
 
+    # the sparse solver has its own exact / randomised variants: without penalties both are the PCA of the data, and the
+    # randomised one is exact when its compressed matrix spans all features (k + 10 oversamples >= p)
+    if backend == "numpy" and desc.get("sparse") and n < 500 and k + 10 >= p and s_true[k - 1] / s1 >= 1e-3:
+        import xeofs as xe
+        ctx.event("sparse_solvers")
+        X = to_da(M.real, "numpy", names=("time", "x"))
+        ev = {}
+        for solver in ("full", "randomized"):
+            m = call(ctx, "fit_raises", lambda: xe.single.SparsePCA(n_modes=k, alpha=0.0, beta=0.0, solver=solver, random_state=desc["rs"], center=False).fit(X, "time"),
+                     disc=dict(disc, solver=solver, cls="SparsePCA"))
+            if isinstance(m, Failed):
+                return
+            ev[solver] = np.asarray(m.explained_variance().values, dtype=float)
+        e = relerr(ev["randomized"], ev["full"], scale=float(ev["full"].max()))
+        ctx.check(e <= 1e-5, "sparse_randomized_explained_variance", f"SparsePCA explained variance, randomized {ev['randomized']} vs full {ev['full']}", **disc)
+
 
 def run_sign(desc, ctx):
     from xeofs.linalg._numpy._svd import _SVD
@@ -283,7 +305,7 @@ def model_outputs(cls, desc, M, rs, solver_kwargs=None, solver="randomized"):
         r = xe.single.EOFRotator(n_modes=max(2, k)).fit(m)
         return [npy(r.data["components"]), npy(r.data["scores"])]
     if cls == "ExtendedEOF":
-        m = xe.single.ExtendedEOF(n_modes=k, tau=1, embedding=2, n_pca_modes=(2 if desc["seed"] % 2 and min(n, p) >= 3 else None), solver=solver,
+        m = xe.single.ExtendedEOF(n_modes=k, tau=1, embedding=2, n_pca_modes=({"few": 2, "all": min(n, p)}[desc["pca_pre"]] if desc.get("pca_pre") and min(n, p) >= 3 else None), solver=solver,
                                   random_state=rs, **kw).fit(X, "time")
         return [npy(m.data["components"]), npy(m.data["scores"])]
     if cls == "OPA":
